@@ -371,10 +371,53 @@ fn align_order(cx: &mut Ctx, src: &sm::Src) {
             cx.fail(rule, &format!("{}/{}", rule, k), &src.loc(m), &format!("the {} arm does not concatenate fill, sign and magnitude in the reference order", k));
         }
     }
-    if t.contains("letnum_chars=magnitude_str.char_len();") && t.contains("letfill_chars_needed:i32=self.width.map_or(0,|w|{cmp::max(0,(wasi32)-(num_charsasi32)-(sign_str.len()asi32))});") {
+    // the fill count is evaluated (whatever combinator or match spells it) for width x characters x sign length
+    let fill_ok = (|| -> Result<usize, String> {
+        use crate::eval::{Machine, V};
+        let mut init: Option<&syn::Expr> = None;
+        for st in &m.block.stmts {
+            if let syn::Stmt::Local(l) = st {
+                let mut ids = vec![];
+                sm::pat_idents(&l.pat, &mut ids);
+                if ids == ["fill_chars_needed"] {
+                    init = l.init.as_ref().map(|i| &*i.expr);
+                }
+            }
+        }
+        let init = init.ok_or("no `let fill_chars_needed = ..`")?;
+        let methods = |recv: &V, name: &str, args: &[V]| -> Option<V> {
+            match (recv, name, args) {
+                (V::Unit, "cmp::max", [V::Int(a), V::Int(b)]) | (V::Unit, "max", [V::Int(a), V::Int(b)]) => Some(V::Int(*a.max(b))),
+                (V::Int(a), "max", [V::Int(b)]) => Some(V::Int(*a.max(b))),
+                (V::Int(a), "saturating_sub", [V::Int(b)]) => Some(V::Int((*a - *b).max(0))),
+                (V::Str(x), "len", []) => Some(V::Int(x.len() as i128)),
+                _ => None,
+            }
+        };
+        let mut n = 0;
+        for width in [None, Some(0i128), Some(1), Some(4), Some(5), Some(9), Some(40)] {
+            for chars in [0i128, 1, 4, 5, 12] {
+                for sign in ["", "-"] {
+                    let mut mach = Machine::new(&methods);
+                    mach.set("self.width", V::Opt(width.map(|w| Box::new(V::Int(w)))));
+                    mach.set("num_chars", V::Int(chars));
+                    mach.set("sign_str", V::Str(sign.to_string()));
+                    let got = mach.eval(init).map_err(|e| format!("not interpretable ({})", e))?;
+                    let want = width.map_or(0, |w| (w - chars - sign.len() as i128).max(0));
+                    if got != V::Int(want) {
+                        return Err(format!("width {:?}, {} characters, sign {:?}: fill count {:?}, expected {}", width, chars, sign, got, want));
+                    }
+                    n += 1;
+                }
+            }
+        }
+        Ok(n)
+    })();
+    if let (true, Ok(n)) = (t.contains("letnum_chars=magnitude_str.char_len();"), &fill_ok) {
+        cx.unit("width x characters x sign combinations on which the fill count was evaluated", *n);
         cx.ok(rule, "fill count = max(0, width - char_len - sign length)");
     } else {
-        cx.fail(rule, &format!("{}/fill-count", rule), &src.loc(m), "the fill count is not max(0, width - char_len() - sign length)");
+        cx.fail(rule, &format!("{}/fill-count", rule), &src.loc(m), &format!("the fill count is not max(0, width - char_len() - sign length){}", fill_ok.as_ref().err().map(|e| format!(": {}", e)).unwrap_or_default()));
     }
     // TruncatedStr announces the number of characters it holds
     let ft = sm::tsx(&src.file);
